@@ -57,7 +57,7 @@ def judge_case(args):
     case = args[0]
     if any(p.get("doc") == "long" for p in case["i"]["params"]):
         res = None
-        for n in range(40, 150, 2):
+        for n in range(40, 150):
             G.LONG_LEN[0] = n
             try:
                 res = _judge_case(args)
